@@ -90,6 +90,8 @@ PROP = {
         "Wm.Decor.delay_one_source",
         "Wm.Decor.delay_stamp_once",
         "Wm.Decor.delay_for_until_agree",
+        "Wm.Decor.delay_until_saturates",
+        "Wm.Decor.wrapped_duration_witness",
         "Wm.Decor.delay_until_zone_agree",
         "Wm.Decor.wall_clock_relabelled_witness",
         "Wm.Decor.delay_batch_error_iff",
@@ -148,7 +150,9 @@ PROP = {
             "seeded random cases: stack depth 0..3 (incl. the same metrics decorator 2-3 times, two delay publishers), generator "
             "nil | error | Delay{} | For(d) | Until(t) | error-for-odd-messages, AllowNoDelay on/off, 0..6 messages mixing pre-set metadata "
             "(valid, malformed, empty), context For/Until with past, zero, 1 ns, fractional, days and ~250 years, Until(t) with t carrying UTC or a non-UTC "
-            "location (+02:00, -05:00, +05:30, -00:30: what time.Now() gives in a non-UTC process or a parsed offset timestamp), 1..4 Publish calls with "
+            "location (+02:00, -05:00, +05:30, -00:30: what time.Now() gives in a non-UTC process or a parsed offset timestamp), "
+            "Until at absolute sentinel dates outside the ±292 years of a time.Duration (2400-01-01, 9999-12-31, the zero time, 1500-01-01) "
+            "and just inside it (2200, 1800): delayed-for must be the distance SATURATED like Time.Sub, 1..4 Publish calls with "
             "inner failure scripts, Close (with error); 10% of the random cases re-publish the same message objects and 10% publish an empty "
             "batch (finding D15, reported as KNOWN-FINDING). sub: every subscriber stack of depth 0..3 over {transform a, transform b, "
             "metrics} x 11 programs (ack/nack/late ack, Close error, no message, Subscribe refused, Subscribe refused once or twice and then accepted "
@@ -187,7 +191,8 @@ PROP = {
     "assumptions": [
         "a time rendered by delay.Message is compared by the instant it denotes; the model also predicts its rendering (suffix Z for a "
         "UTC time, +hh:mm for a time that carries another location), which only the model comparison looks at",
-        "time.Duration does not saturate: |t - now| < 2^63 ns (~292 years) for delay.Until(t); the generator stays within 250 years",
+        "'delayed-for and delayed-until agree' for an Until delay means delayed-for = Time.Sub(until, now): the exact distance within the "
+        "range of a time.Duration, the largest / smallest duration beyond it (so the sign is always right); delay.For stays within 250 years",
         "'delayed-for and delayed-until agree' is demanded for delays built by delay.For / delay.Until; the zero value delay.Delay{} "
         "(until = 0001-01-01T00:00:00Z, for = 0s) is stamped as it is and only its precedence is checked",
         "transform functions change metadata only; a transform that replaces the message context would also remove the "
